@@ -70,8 +70,39 @@ def evalFtree (opt : Bool) (defs : List (List Char × Rare.Drv.C09.PTree)) (call
       else ans
     else s!"not-in-fragment tpl={Hex.enc (encodeRunes tpl)}"
 
+/-- `hist <file|-> <template> <keys> <elems>…`: the values of ONE compiled expression (optimiser on) on a sequence of
+    matches; the model has no hidden state, so each value is the stateless one (the Go side also compiles without
+    optimisation and answers `DIFF …` when the two sequences disagree). -/
+def evalHist (file : Option Bytes) (tmpl : Bytes) (keys : List Bytes) (elemss : List (List Bytes)) : String :=
+  let regE : Except String Registry :=
+    match file with
+    | none => .ok registry
+    | some f =>
+      match loadDefs registry (parseDefs f) with
+      | .error m => .error m
+      | .ok (_, fs) => .ok (withFuncs registry fs)
+  match regE with
+  | .error m => panicAns m
+  | .ok reg =>
+    match decodeTemplate tmpl with
+    | none => "bad-args"
+    | some tc =>
+      match compile reg true tc with
+      | .error m => panicAns m
+      | .ok (stages, errs) =>
+        match unmodelledTag errs with
+        | some n => "unmodelled " ++ n
+        | none =>
+          match elemss.mapM (fun el => (buildKey stages).run (mkCtx el keys)) with
+          | .error m => panicAns m
+          | .ok vals => s!"ok errs={errsStr errs} vals={",".intercalate (vals.map Hex.enc)}"
+
 def handle (args : List String) : String :=
   match args with
+  | "hist" :: fh :: t :: ks :: els =>
+    match (if fh == "-" then some none else (Hex.dec fh).map some), Hex.dec t, decHexList ks, els.mapM decHexList with
+    | some file, some tmpl, some keys, some elemss => evalHist file tmpl keys elemss
+    | _, _, _, _ => "bad-args"
   | ["ftree", o, ds, toks, el, ks] =>
     match parseTreeDefs ds, decHexList el, decHexList ks with
     | some defs, some elems, some keys =>
